@@ -8,15 +8,18 @@ open Netpoll.Buf
 /-- a live struct without origin and without live children may change its memory -/
 theorem Rc.setNode_nochild {m : Mem} {C : List Nat} {i : Nat} {nd : NodeS} (nd' : NodeS) (h : Rc m C) (hn : m.nodes[i]? = some nd)
     (h0 : nd.recycled = 0) (hch0 : m.ch i = 0) (h1 : nd'.recycled = nd.recycled) (h2 : nd'.origin = nd.origin) (h2' : nd.origin = none)
-    (h3 : nd'.refer = nd.refer) : Rc (m.setNode i nd') C := by
+    (h3 : nd'.refer = nd.refer)
+    (hcal : nd'.unmanaged = true → ∀ k, nd'.block = some k → ∃ bl : Block, m.blocks[k]? = some bl ∧ bl.kind = .caller) :
+    Rc (m.setNode i nd') C := by
   have hch : ∀ o, (m.setNode i nd').ch o = m.ch o := ch_setNode_same hn h1 h2
   refine ⟨h.nodup, fun j hj => by simp only [Mem.setNode, List.length_set]; exact h.inb j hj, fun j x hx => ?_⟩
   rcases getElem?_setNode hx with ⟨rfl, rfl, _⟩ | ⟨hji, hx'⟩
   · have r := h.node j nd hn
-    refine ⟨by rw [h1]; exact r.once, fun _ => ?_, fun hd => by rw [h1] at hd; omega, fun o ho => by rw [h2, h2'] at ho; cases ho⟩
+    refine ⟨by rw [h1]; exact r.once, fun _ => ?_, fun hd => by rw [h1] at hd; omega, fun o ho => (by rw [h2, h2'] at ho; cases ho),
+      fun hu _ k hk => hcal hu k hk⟩
     rw [hch, h3]; exact r.live h0
   · have r := h.node j x hx'
-    refine ⟨r.once, fun h0' => by rw [hch]; exact r.live h0', fun hd => by rw [hch]; exact r.dead hd, fun o ho h0' => ?_⟩
+    refine ⟨r.once, fun h0' => by rw [hch]; exact r.live h0', fun hd => by rw [hch]; exact r.dead hd, fun o ho h0' => ?_, r.caller⟩
     obtain ⟨a, b, c, on, d, e, f⟩ := r.child o ho h0'
     by_cases hoi : o = i
     · subst hoi
@@ -317,9 +320,13 @@ theorem writeBuffer_rc {cfg : Cfg} {m m' : Mem} {b d b' d' : Buf} {R : List Nat}
 
 /-- a fresh struct wrapped around caller memory (WriteBinary in place, WriteDirect's data node) -/
 theorem fresh_wrap_rc {cfg : Cfg} {m : Mem} {C : List Nat} (nd' : NodeS) (h : Rc m C) (h1 : nd'.recycled = 0) (h2 : nd'.origin = none)
-    (h3 : nd'.refer = 1) : Rc ((m.newNode cfg 0).1.setNode (m.newNode cfg 0).2 nd') ((m.newNode cfg 0).2 :: C) := by
+    (h3 : nd'.refer = 1)
+    (hcal : ∀ k, nd'.block = some k → ∃ bl : Block, m.blocks[k]? = some bl ∧ bl.kind = .caller) :
+    Rc ((m.newNode cfg 0).1.setNode (m.newNode cfg 0).2 nd') ((m.newNode cfg 0).2 :: C) := by
   obtain ⟨nd, g0, g1, g2, g3, g4⟩ := newNode_fresh_facts (cfg := cfg) 0 h
+  have hb : (m.newNode cfg 0).1.blocks = m.blocks := (newNode0_own cfg m 0).2
   exact (newNode_rc 0 h).setNode_nochild nd' g0 g1 g4 (by rw [h1, g1]) (by rw [h2, g2]) g2 (by rw [h3, g3])
+    (fun _ k hk => by rw [hb]; exact hcal k hk)
 
 theorem writeBinary_rc {cfg : Cfg} {m m' : Mem} {b b' : Buf} {n pcap : Nat} {R : List Nat} (h : Rc m (b.chain ++ R))
     (hr : writeBinary cfg m b n pcap = some (m', b')) : Rc m' (b'.chain ++ R) := by
@@ -327,13 +334,15 @@ theorem writeBinary_rc {cfg : Cfg} {m m' : Mem} {b b' : Buf} {n pcap : Nat} {R :
   split at hr
   · cases hr; exact h
   · have h1 := h.allocBlock .caller (max pcap n)
-    generalize m.allocBlock .caller (max pcap n) = p at hr h1
+    obtain ⟨blc, gc1, gc2, _⟩ := allocBlock_get m .caller (max pcap n)
+    generalize m.allocBlock .caller (max pcap n) = p at hr h1 gc1
     obtain ⟨m1, cb⟩ := p
-    dsimp only at hr h1
+    dsimp only at hr h1 gc1
     split at hr
     · split at hr
       · cases hr
       · have h2 := fresh_wrap_rc (cfg := cfg) { unmanaged := true, block := some cb, malloc := n, cap := pcap } h1 rfl rfl rfl
+          (fun k hk => by cases hk; exact ⟨blc, gc1, gc2⟩)
         generalize m1.newNode cfg 0 = q at hr h2
         obtain ⟨m2, c⟩ := q
         cases hr
@@ -450,10 +459,12 @@ theorem getBytes_rc {m m' : Mem} {id : Nat} {b b' : Buf} {k : Nat} {R : List Nat
 /-- `WriteDirect` without a split (`remain ≤ 0`): the data node is linked behind the origin -/
 theorem writeDirectAt_rc {cfg : Cfg} {m m' : Mem} {b b' : Buf} {n ecap cb oi o mm : Nat} {remain : Int} {origin : NodeS} {R : List Nat}
     (h : Rc m (b.chain ++ R)) (hns : ¬ remain > 0) (hoi : b.chain[oi]? = some o)
+    (hcb : ∃ bl : Block, m.blocks[cb]? = some bl ∧ bl.kind = .caller)
     (hr : writeDirectAt cfg m b n ecap remain cb oi o origin mm = some (m', b')) : Rc m' (b'.chain ++ R) := by
   unfold writeDirectAt at hr
   dsimp only at hr
   have h1 := fresh_wrap_rc (cfg := cfg) { unmanaged := true, block := some cb, malloc := n, cap := ecap } h rfl rfl rfl
+    (fun k hk => by cases hk; exact hcb)
   split at hr
   · cases hr
   · split at hr
@@ -492,6 +503,7 @@ theorem writeDirect_rc {cfg : Cfg} {m m' : Mem} {b b' : Buf} {n ecap : Nat} {rem
   · cases hr; exact h
   · dsimp only at hr
     have h1 := h.allocBlock .caller (max ecap n)
+    obtain ⟨blc, gc1, gc2, _⟩ := allocBlock_get m .caller (max ecap n)
     split at hr
     · cases hr
     · split at hr
@@ -503,6 +515,6 @@ theorem writeDirect_rc {cfg : Cfg} {m m' : Mem} {b b' : Buf} {n ecap : Nat} {rem
           · cases hr
           · split at hr
             · cases hr
-            · exact writeDirectAt_rc h1 hns hoi hr
+            · exact writeDirectAt_rc h1 hns hoi ⟨blc, gc1, gc2⟩ hr
 
 end Netpoll.Buf.Own
